@@ -13,6 +13,7 @@ from ckl.errors import CklRuntimeError
 from ckl.parser import parse_script
 from ckl.date import to_oa_date, to_date
 from ckl.values import (
+    date_from_number,
     Args,
     StringInput,
     FileInput,
@@ -611,8 +612,8 @@ class FuncAdd(ValueFunc):
             return result
 
         if a.isDate() and b.isNumerical():
-            return ValueDate(
-                to_date(to_oa_date(a.value) + args.getAsDecimal("b").value)
+            return date_from_number(
+                to_oa_date(a.value) + args.getAsDecimal("b").value, pos
             )
 
         if (a.isString() and b.isAtomic()) or (a.isAtomic() and b.isString()):
@@ -3992,8 +3993,8 @@ class FuncSub(ValueFunc):
                 if diff == math.trunc(diff):
                     return ValueInt(math.trunc(diff))
                 return ValueDecimal(diff)
-            return ValueDate(
-                to_date(to_oa_date(a.value) - args.getAsDecimal("b").value)
+            return date_from_number(
+                to_oa_date(a.value) - args.getAsDecimal("b").value, pos
             )
 
         if a.isNull() or b.isNull():
